@@ -96,7 +96,12 @@ class ObservedStream:
         w = self._w
         self.sim_reads += 1
         w.event("stream-read", self._ordinal)
-        f = w.faults.take("read", self._ordinal)
+        f = None
+        if getattr(self._raw, "status", 200) not in (301, 302, 303, 307, 308):
+            # (the answer to a redirected request is read and closed by
+            # urllib itself before the caller is handed anything: a failure
+            # while IT reads is nothing the code under test can clean up)
+            f = w.faults.take("read", self._ordinal)
         if f is not None:
             w.fired(f)
             kind = f["kind"]
@@ -307,6 +312,13 @@ class FakeSocket:
                 # the server announces some nine million bytes more than it
                 # sends before the connection ends
                 extra = 9 * 1024 * 1024
+        location = None
+        if fault is None and url in getattr(w, "redirects", {}):
+            # the resource has moved: the server answers with a redirect
+            # (the new location may carry a fragment identifier)
+            location = w.redirects[url]
+            status, text = "302 Found", "moved"
+            w.probe("http-redirect")
         if text is None:
             w.probe("open-missing")
             status, text = "404 Not Found", "no such simulated resource"
@@ -315,9 +327,10 @@ class FakeSocket:
         if w.http_charset:
             # (what the simulated server CLAIMS; the body is always UTF-8)
             ctype += "; charset=" + w.http_charset
-        head = ("HTTP/1.1 %s\r\nContent-Type: %s\r\n"
+        head = ("HTTP/1.1 %s\r\nContent-Type: %s\r\n%s"
                 "Content-Length: %d\r\nConnection: close\r\n\r\n"
-                % (status, ctype, len(body) + extra)).encode("latin-1")
+                % (status, ctype, ("Location: %s\r\n" % location)
+                   if location else "", len(body) + extra)).encode("latin-1")
         f = io.BytesIO(head + body)
         # the "connection": what http.client reads the response from.  It is
         # closed when the response object (or the HTTPError built around it)
@@ -371,6 +384,7 @@ def build_opener(world, realfs):
     o.add_handler(urllib.request.DataHandler())
     o.add_handler(urllib.request.HTTPDefaultErrorHandler())
     o.add_handler(urllib.request.HTTPErrorProcessor())
+    o.add_handler(urllib.request.HTTPRedirectHandler())
     o.add_handler(SimHTTPHandler(world))
     o.add_handler(RealFileHandler(world) if realfs else SimFileHandler(world))
     return o
@@ -510,6 +524,7 @@ class SimWorld:
         self.faults = Faults()
         self.pending_http_fault = None
         self.http_charset = "utf-8"   # charset parameter the server sends
+        self.redirects = {}      # http URL -> Location the server sends
         self.pkg_faults = {}     # package name -> fault kind (by name, not
         #                          by ordinal; set by the property module)
         self._reset_op()
